@@ -309,13 +309,18 @@ package fs
 // fixCreatedParentDirs re-times the directories this call created, deepest first
 //@ func fixCreatedParentDirs
 //@   property C13
-//@   trusted uses the generic slices.Reverse
 //@   effects Utimes
 //@   modifies dirs[*]
+//@   loop 0 invariant count: tm != nil ==> cnt(Utimes) == old(cnt(Utimes)) + rangeindex + 1
+//@   loop 0 invariant none: tm == nil ==> cnt(Utimes) == old(cnt(Utimes))
+//@   loop 0 invariant bound: rangeindex + 1 <= len(dirs)
+//@   loop 0 invariant nofollow: cnt(Utimes) > old(cnt(Utimes)) ==> arg(Utimes, 5) == unix.AT_SYMLINK_NOFOLLOW
+//@   ensures notime: tm == nil ==> cnt(Utimes) == old(cnt(Utimes)) && result == nil
+//@   ensures each_once: tm != nil && result == nil ==> cnt(Utimes) == old(cnt(Utimes)) + len(dirs)
+//@   ensures nofollow: cnt(Utimes) > old(cnt(Utimes)) ==> arg(Utimes, 5) == unix.AT_SYMLINK_NOFOLLOW
 
 //@ func newCopier
 //@   property C13 C16
-//@   trusted constructor: allocates the copier with an empty inode map
 //@   ensures result1 == nil ==> result0 != nil && fresh(result0) && result0.inodes != nil && len(result0.parentDirs) == 0 && result0.root == root && result0.chown == chown && result0.utime == tm && result0.mode == mode && result0.modeSet == modeSet && result0.alwaysReplaceExistingDestPaths == alwaysReplaceExistingDestPaths && result0.changefn == changeFunc
 
 // The entry point. A destination whose last element is empty or "." (trailing
@@ -334,6 +339,17 @@ package fs
 //@   at call copier.prepareTargetDir: dst_in_root: arg3 == fs.RootPath(dstRoot, filepath.Clean(dst))
 //@   at call copier.copy: start: arg3 == "" && arg5 == false
 
+// wildcard expansion: the walk callback only appends to its own result list
+//@ func resolveWildcards$1
+//@   property C15
+//@   modifies array string
+//@ func resolveWildcards
+//@   property C15
+//@   modifies array string
+//@ func splitWildcards
+//@   property C15
+//@   modifies array string
+//@   loop 0 invariant own: (p1 == nil || fresh(p1)) && (p2 == nil || fresh(p2))
 //@ func ResolveWildcards
 //@   property C15
-//@   trusted wildcard expansion walks the source with filepath.Walk; assumed not to modify the copier
+//@   modifies array string
